@@ -536,8 +536,43 @@ def _check_sort_relabel(ctx, fi: FuncInfo, res: RuleResult):
     ok = False
     why = "no sorted(...) of (key, atom) pairs"
     for s in srt:
-        if kwarg(s, "key") is not None or kwarg(s, "reverse") is not None:
-            why = "sorted with key/reverse: order of equal keys or direction changes"
+        rev = kwarg(s, "reverse")
+        if rev is not None and not (isinstance(rev, ast.Constant) and rev.value in (False, None)):
+            why = "sorted with reverse: direction changes"
+            continue
+        key = kwarg(s, "key")
+        if key is not None:
+            # sorted(<atoms>, key=K) with K(atom) = (attribute key, atom): the same total order as sorting the pairs
+            kfn = None
+            if isinstance(key, ast.Lambda):
+                kparams, kret, kowner = [a.arg for a in key.args.args], key.body, fi
+            else:
+                cs_k = None
+                if isinstance(key, ast.Name):
+                    cand = f"{fi.qualname}.<locals>.{key.id}"
+                    kfn = fi.module.functions.get(cand)
+                    if kfn is None:
+                        r_ = ctx.repo.resolve(fi.module, key.id)
+                        kfn = r_[1] if r_ and r_[0] == "func" else None
+                if kfn is None:
+                    raise AnalysisError(f"R-CODEC: cannot resolve the sort key `{short(key)}` in {fi.qualname}")
+                rets_ = [x for x in ast.walk(kfn.node) if isinstance(x, ast.Return) and x.value is not None]
+                if len(rets_) != 1:
+                    raise AnalysisError(f"R-CODEC: sort key function {kfn.qualname} has several returns")
+                kparams, kret, kowner = params_of(kfn.node), rets_[0].value, kfn
+            if len(kparams) != 1:
+                raise AnalysisError(f"R-CODEC: sort key `{short(key)}` does not take exactly one atom")
+            a_ = kparams[0]
+            if isinstance(kret, ast.Tuple) and len(kret.elts) == 2 and isinstance(kret.elts[1], ast.Name) and kret.elts[1].id == a_ and isinstance(kret.elts[0], ast.Call) \
+                    and a_ in {x.id for x in ast.walk(kret.elts[0]) if isinstance(x, ast.Name)}:
+                cs2 = ctx.cg.resolve_call(kowner, kret.elts[0], ctx.cg.local_types(kowner), set(params_of(kowner.node)))
+                src_ = s.args[0]
+                over_nodes = norm(src_) in (params_of(fn)[0], f"{params_of(fn)[0]}.nodes", f"list({params_of(fn)[0]})", f"{params_of(fn)[0]}.nodes()")
+                if cs2.kind == "tucan" and over_nodes:
+                    ok, why = True, f"atoms sorted by key (key({a_}), {a_}), key = {cs2.target.name}"
+                    break
+                raise AnalysisError(f"R-CODEC: `{short(s)}` sorts something other than the atoms of the graph, or by a key this rule cannot follow")
+            why = f"sort key `{short(kret)}` does not end with the atom's label: atoms with equal keys keep their listing order"
             continue
         inner = s.args[0]
         if isinstance(inner, ast.Name):
